@@ -9,48 +9,6 @@ import (
 	"github.com/onflow/crypto/hash"
 )
 
-var blsR, _ = new(big.Int).SetString("73eda753299d7d483339d80809a1d80553bda402fffe5bfeffffffff00000001", 16)
-var blsP, _ = new(big.Int).SetString("1a0111ea397fe69a4b1ba7b6434bacd764774b84f38512bf6730d2a0f6b0f6241eabfffeb153ffffb9feffffffffaaab", 16)
-
-func be(n *big.Int, l int) []byte {
-	b := n.Bytes()
-	if len(b) > l {
-		return b[len(b)-l:]
-	}
-	out := make([]byte, l)
-	copy(out[l-len(b):], b)
-	return out
-}
-
-// errClass maps an error to the canonical enum of the protocol.
-func errClass(err error) string {
-	switch {
-	case err == nil:
-		return "nil"
-	case crypto.IsInvalidInputsError(err):
-		return "InvalidInputs"
-	case crypto.IsNilHasherError(err):
-		return "NilHasher"
-	case crypto.IsInvalidHasherSizeError(err):
-		return "HasherSize"
-	case crypto.IsNotBLSKeyError(err):
-		return "NotBLSKey"
-	case crypto.IsBLSAggregateEmptyListError(err):
-		return "EmptyList"
-	case crypto.IsInvalidSignatureError(err):
-		return "InvalidSignature"
-	case crypto.IsNotEnoughSharesError(err):
-		return "NotEnoughShares"
-	case crypto.IsDuplicatedSignerError(err):
-		return "DuplicatedSigner"
-	case crypto.IsDKGFailureError(err):
-		return "DKGFailure"
-	case crypto.IsDKGInvalidStateTransitionError(err):
-		return "DKGInvalidTransition"
-	}
-	return "Other"
-}
-
 // skFromInt builds a BLS private key from a scalar in [1, r-1].
 func skFromInt(k *big.Int) crypto.PrivateKey {
 	sk, err := crypto.DecodePrivateKey(crypto.BLSBLS12381, be(k, 32))
@@ -98,3 +56,16 @@ func (f *fixedHasher) ComputeHash([]byte) hash.Hash     { return append([]byte{}
 func (f *fixedHasher) Write(p []byte) (int, error)      { return len(p), nil }
 func (f *fixedHasher) SumHash() hash.Hash               { return append([]byte{}, f.out...) }
 func (f *fixedHasher) Reset()                           {}
+
+// blsErrClass classifies the BLS-specific sentinel errors (only available with cgo).
+func blsErrClass(err error) string {
+	switch {
+	case crypto.IsNotBLSKeyError(err):
+		return "NotBLSKey"
+	case crypto.IsBLSAggregateEmptyListError(err):
+		return "EmptyList"
+	case crypto.IsInvalidSignatureError(err):
+		return "InvalidSignature"
+	}
+	return ""
+}
